@@ -115,8 +115,28 @@ struct X_ : state_machine_def<X_> {
   template<class F,class Ev> void exception_caught(Ev const&,F& f,std::exception&){ g_log += "caught{ "; f.process_event(note(2)); g_log += "} "; }
 };
 typedef BE<X_> XM;
+// an event a SUBMACHINE's behaviour sends to its own machine while it is processing, and that nothing handles when it is dequeued: it was a
+// process_event call on that machine, so that machine's no_transition reports it - exactly once, on no other machine (C04 "processed by the
+// machine it was sent to", C06, C13)
+struct sping {}; struct skick {};
+struct QS_ : state_machine_def<QS_> {
+  struct P : state<> {}; struct Q : state<> {};
+  typedef P initial_state;
+  struct RaisePing { template<class E,class F,class S,class T> void operator()(E const&,F& f,S&,T&){ g_log += "raise "; f.process_event(sping()); } };
+  struct transition_table : mpl::vector< Row<P,skick,Q,RaisePing,none> > {};
+  template<class F,class Ev> void no_transition(Ev const&,F&,int){ g_log += "NTsub "; }
+};
+typedef BE<QS_> QS;
+struct QT_ : state_machine_def<QT_> {
+  typedef QS initial_state;
+  struct transition_table : mpl::vector<> {};
+  template<class F,class Ev> void no_transition(Ev const&,F&,int){ g_log += "NTtop "; }
+};
+typedef BE<QT_> QT;
 int main(int argc, char** argv) {
   if (argc > 1) g_only = argv[1];
+  { QT m; m.start(); g_log.clear(); m.process_event(skick());
+    report("submachine-sends-itself-an-unhandled-event.reported-by-that-machine-once", g_log == "raise NTsub ", "C04,C06,C13", "log=[" + g_log + "]"); }
   const char* pos[] = {"guard","exit","action","entry"};
   for (int at = 0; at < 4; ++at) for (int cnt = 0; cnt <= 3; ++cnt) {
     M m; m.start(); g_submit_at = at; g_count = cnt; g_log.clear(); g_reentered = false; g_depth = 0;
